@@ -6,6 +6,8 @@ template<typename Shape_> void inst()
 {
   Cubature::Rule<Shape_, double, double, Tiny::Vector<double, Shape_::dimension>> rule;
   Cubature::DynamicFactory::create(rule, String("x"));
+  Cubature::DynamicFactory(String("x")).create_throw(rule);
+  volatile int max_auto_degree = Cubature::AutoAlias<Shape_>::max_auto_degree; (void)max_auto_degree;
 }
 void inst_all()
 {
